@@ -24,6 +24,46 @@ CLAIMED = {
         "commented there and derived from the statement of C02).",
         "DESIGN.md section 4 (C02)",
     ),
+    "C05": (
+        "PBT against exact rational FVA (2 exact LPs per reaction, side constraints reproduced exactly; sign-pattern enumeration for loopless)",
+        "Exploration: generated models x argument combinations; every reported end compared with the exact extreme under "
+        "the same objective row and total-flux cap; consequences (min<=max, FBA solution inside, loopless inside plain, "
+        "request order, model unchanged) checked.",
+        "Trusts vfw/exactlp.py certificates and vfw/oracles.py (side-constraint construction); 1e-6 relative tolerance.",
+        "DESIGN.md section 4 (C05)",
+    ),
+    "C06": (
+        "PBT against exact LP on independently knocked-out specs (truth-table evaluator for gene rules); validity predicate for linear MOMA",
+        "Exploration: generated models with shared/nested gene rules x deletion analyses x list shapes x methods x "
+        "processes; row set, growth and status per row compared with an exact LP of the independently knocked-out "
+        "model; MOMA growth checked against the exact range over minimal-distance solutions; essential sets with dead band.",
+        "Trusts gprtree.evaluate, exactlp certificates; dead band 1e-5 around essentiality thresholds.",
+        "DESIGN.md section 4 (C06)",
+    ),
+    "C07": (
+        "PBT + exhaustive subset/order enumeration against an independent truth-table evaluator",
+        "Exploration: generated rule trees x knock-out subsets x orders x API routes x context on/off; bounds, functional "
+        "flags, raw GLPK columns and return values compared with the independent evaluator; thorough tier enumerates all "
+        "subsets (all orders up to 4 genes) per generated model.",
+        "Trusts gprtree.evaluate (and/or over a tree).",
+        "DESIGN.md section 4 (C07)",
+    ),
+    "C08": (
+        "PBT (grammar-based rule text generation) + exhaustive small-scope enumeration against truth tables; round-trip and metamorphic relations",
+        "Exploration: generated and enumerated and/or trees over identifiers of every supported class, rendered with "
+        "generated spellings; parse/eval/genes vs truth table, eight round trips (text, copies, pickles, symbolic) with "
+        "equality, soundness of == on variant pairs, remove_genes against the restricted tree.",
+        "Trusts gprtree (evaluator, renderer that parenthesises every sub-expression).",
+        "DESIGN.md section 4 (C08)",
+    ),
+    "C09": (
+        "PBT against exact LP optima of the documented secondary problems; exhaustive binary enumeration for ROOM",
+        "Exploration: generated feasible models x pFBA/linear MOMA/ROOM argument combinations on knock-out states; "
+        "returned fluxes checked for feasibility independently, their secondary objective compared with the exact optimum "
+        "(LP, or enumeration of all binary vectors for ROOM).",
+        "Trusts exactlp certificates and the transcription of the documented formulations in vfw/oracles.py.",
+        "DESIGN.md section 4 (C09)",
+    ),
     "C12": (
         "stateful PBT: copy at a generated point of a history, then edits on either side with other-side snapshot invariance",
         "Exploration: generated models and pre-histories (incl. open contexts), copies by copy()/deepcopy/pickle, "
